@@ -28,6 +28,7 @@ REGISTRY = {
     "C15": ("smv.args", "run_c15", "replay_case"),
     "C16": ("smv.args", "run_c16", "replay_case"),
     "C17": ("smv.coords", "run_c17", "replay_case"),
+    "C18": ("smv.config", "run_c18", "replay_case"),
 }
 
 
